@@ -207,6 +207,14 @@ class RadioModel(Model):
                         snap = Bytes([(("unknown", "opaque buffer"), Unknown(ty="int"))], "bytes")
                     else:
                         snap = Bytes([(("items", tuple(norm(i).key() for i in cell.items), tuple(cell.items)), Const(len(cell.items)))], "bytes")
+                # a write shorter than the register keeps the register's remaining bytes
+                width = regmap.REGS[rc][1] if rc in regmap.REGS else 1
+                if width > 1:
+                    newb, oldv = it.concrete_bytes(snap, st), self.reg_get(st, rc)
+                    oldb = it.concrete_bytes(oldv, st)
+                    if newb is not None and len(newb) < width and oldb is not None and len(oldb) >= width:
+                        merged = newb + oldb[len(newb):width]
+                        snap = Bytes([(("const", merged), Const(len(merged)))], "bytes")
                 self.reg_set(st, rc, snap)
             return [(st, Const(None))]
         if role == "write1":
